@@ -550,6 +550,12 @@ parsec_map_operator_New(const parsec_tiled_matrix_t* src,
     tp->next_n  = 0;
     tp->super.taskpool_id = 1111;
     tp->super.nb_tasks = src->nb_local_tiles;
+    if( 0 == tp->super.nb_tasks ) {
+        /* No local tile: no task will ever complete the pending action that
+         * accounts for the local tasks, release it now or the taskpool never
+         * terminates on this process. */
+        tp->super.nb_pending_actions = 0;
+    }
     tp->super.task_classes_array = (const parsec_task_class_t **)
         malloc(tp->super.nb_task_classes * sizeof(parsec_task_class_t *));
     tp->super.task_classes_array[0] = &parsec_map_operator;
